@@ -625,3 +625,122 @@ pub enum LintWhich {
     Boring,
     Pronoun,
 }
+
+// --------------------------------------------------------------------------- isolated children
+
+/// Result of running a closure in a forked child process.
+#[derive(Clone, Debug)]
+pub struct ChildResult {
+    pub exit_code: Option<i32>,
+    pub signal: Option<i32>,
+    /// everything the child wrote to its report pipe and to stderr (one pipe)
+    pub output: Vec<u8>,
+}
+
+#[repr(C)]
+struct RLimit {
+    cur: u64,
+    max: u64,
+}
+
+extern "C" {
+    fn fork() -> i32;
+    fn waitpid(pid: i32, status: *mut i32, options: i32) -> i32;
+    fn pipe(fds: *mut i32) -> i32;
+    fn dup2(old: i32, new: i32) -> i32;
+    fn close(fd: i32) -> i32;
+    fn read(fd: i32, buf: *mut u8, count: usize) -> isize;
+    fn write(fd: i32, buf: *const u8, count: usize) -> isize;
+    fn _exit(code: i32) -> !;
+    fn setrlimit(resource: i32, rlim: *const RLimit) -> i32;
+}
+
+const RLIMIT_CPU: i32 = 0;
+const RLIMIT_AS: i32 = 9;
+const RLIMIT_CORE: i32 = 4;
+
+pub struct PipeWriter(i32);
+
+impl Write for PipeWriter {
+    fn write(&mut self, buf: &[u8]) -> std::io::Result<usize> {
+        let n = unsafe { write(self.0, buf.as_ptr(), buf.len()) };
+        if n < 0 {
+            Err(std::io::Error::last_os_error())
+        } else {
+            Ok(n as usize)
+        }
+    }
+    fn flush(&mut self) -> std::io::Result<()> {
+        Ok(())
+    }
+}
+
+/// Run `f` in a forked child with an address-space and a CPU-time limit, so that a segfault,
+/// abort, allocation failure or runaway loop in rrss cannot take the worker with it. The child
+/// reports through the writer it is given; its stderr goes to the same pipe.
+pub fn run_in_child(as_limit: u64, cpu_secs: u64, f: impl FnOnce(&mut PipeWriter)) -> ChildResult {
+    let mut fds = [0i32; 2];
+    if unsafe { pipe(fds.as_mut_ptr()) } != 0 {
+        return ChildResult { exit_code: Some(125), signal: None, output: b"pipe failed".to_vec() };
+    }
+    let pid = unsafe { fork() };
+    if pid < 0 {
+        unsafe {
+            close(fds[0]);
+            close(fds[1]);
+        }
+        return ChildResult { exit_code: Some(125), signal: None, output: b"fork failed".to_vec() };
+    }
+    if pid == 0 {
+        // child
+        unsafe {
+            close(fds[0]);
+            dup2(fds[1], 2);
+            let l = RLimit { cur: as_limit, max: as_limit };
+            setrlimit(RLIMIT_AS, &l);
+            let c = RLimit { cur: cpu_secs, max: cpu_secs + 1 };
+            setrlimit(RLIMIT_CPU, &c);
+            let z = RLimit { cur: 0, max: 0 };
+            setrlimit(RLIMIT_CORE, &z);
+        }
+        let mut w = PipeWriter(fds[1]);
+        // a panic escaping `f` must not unwind into the parent's frames
+        let r = catch_unwind(AssertUnwindSafe(|| f(&mut w)));
+        unsafe { _exit(if r.is_ok() { 0 } else { 101 }) }
+    }
+    // parent
+    unsafe { close(fds[1]) };
+    let mut output = Vec::new();
+    let mut buf = [0u8; 4096];
+    loop {
+        let n = unsafe { read(fds[0], buf.as_mut_ptr(), buf.len()) };
+        if n <= 0 {
+            break;
+        }
+        if output.len() < 1 << 20 {
+            output.extend_from_slice(&buf[..n as usize]);
+        }
+    }
+    unsafe { close(fds[0]) };
+    let mut status = 0i32;
+    unsafe { waitpid(pid, &mut status, 0) };
+    let sig = status & 0x7f;
+    if sig == 0 {
+        ChildResult { exit_code: Some((status >> 8) & 0xff), signal: None, output }
+    } else {
+        ChildResult { exit_code: None, signal: Some(sig), output }
+    }
+}
+
+pub fn signal_name(sig: i32) -> String {
+    match sig {
+        4 => "SIGILL".into(),
+        6 => "SIGABRT".into(),
+        7 => "SIGBUS".into(),
+        8 => "SIGFPE".into(),
+        9 => "SIGKILL".into(),
+        11 => "SIGSEGV".into(),
+        24 => "SIGXCPU".into(),
+        n => format!("signal{}", n),
+    }
+}
